@@ -27,7 +27,7 @@ MANIFEST = dict(
     design="5/C04")
 INVS = ["TypeOK", "PokeRejected", "EqExact", "EqTruth", "EqReflexive", "EqTransitive"]
 PROPS = ["Frozen", "DerivedRight"]
-ALL = ["flat", "flat2", "cont", "deep", "nest", "gen", "genraw", "miss", "flag"]
+ALL = ["flat", "flat2", "cont", "deep", "nest", "gen", "genraw", "miss", "flag", "rng", "anyl"]
 
 
 class Flat(State):
@@ -68,6 +68,10 @@ class Flag(State):
     value: bool | int
 
 
+class Rng(State):
+    r: range        # a sequence that is not a tuple and must stay what it is (copies included)
+
+
 def make(cls, v):
     """-> (instance, external containers or None)"""
     if cls == "flat":
@@ -91,6 +95,10 @@ def make(cls, v):
         return Miss(w=MISSING if v == 0 else v), None
     if cls == "flag":
         return Flag(value=1 if v == 1 else True), None
+    if cls == "rng":
+        return Rng(r=range(v)), None
+    if cls == "anyl":
+        return G(v=list(range(1, v + 1))), None      # a list held under Any: kept as given, and a copy equals it
     raise ValueError(cls)
 
 
@@ -121,10 +129,14 @@ def value_of(cls, o):
     if cls == "flag":
         x = o.value
         return 1 if (type(x) is int and x == 1) else 2 if x is True else f"odd {d!r}"
+    if cls == "rng":
+        return len(o.r) if type(o.r) is range and o.r == range(len(o.r)) and d == {"r": o.r} else f"odd {d!r}"
+    if cls == "anyl":
+        return len(o.v) if type(o.v) is list and o.v == list(range(1, len(o.v) + 1)) else f"odd {d!r}"
     raise ValueError(cls)
 
 
-ATTR = {"flat": "a", "flat2": "a", "cont": "xs", "deep": "rows", "nest": "inner", "gen": "v", "genraw": "v", "miss": "w",
+ATTR = {"rng": "r", "anyl": "v", "flat": "a", "flat2": "a", "cont": "xs", "deep": "rows", "nest": "inner", "gen": "v", "genraw": "v", "miss": "w",
         "flag": "value"}
 
 
@@ -193,8 +205,7 @@ class HeapDriver:
                 elif how == "invalid_eq":
                     r = self._invalid_eq(cls, o, cur)
                 elif how == "invalid":
-                    r = o.updated(**{ATTR[cls]: object() if cls != "genraw" else object()}) if cls != "genraw" \
-                        else o.updated(**{"v": MISSING}).updated(nope=1) if False else self._invalid(cls, o)
+                    r = self._invalid(cls, o)
                 else:
                     r = self._valid(cls, o, nv)
             except Exception:  # noqa: BLE001  - refused, whatever the exception type
@@ -228,6 +239,10 @@ class HeapDriver:
             return o.updated(v=nv)
         if cls == "flag":
             return o.updated(value=1 if nv == 1 else True)
+        if cls == "rng":
+            return o.updated(r=range(nv))
+        if cls == "anyl":
+            return o.updated(v=list(range(1, nv + 1)))
         return o.updated(w=MISSING if nv == 0 else nv)
 
     def _invalid_eq(self, cls, o, cur):
@@ -239,7 +254,7 @@ class HeapDriver:
         return o.updated(**{ATTR[cls]: float(cur)})
 
     def _invalid(self, cls, o):
-        if cls == "genraw":
+        if cls in ("genraw", "anyl"):
             # every value is valid for an unspecialised generic (Any): there is no invalid update
             raise TypeError("no invalid value exists for Any")
         return o.updated(**{ATTR[cls]: object()})
@@ -302,7 +317,7 @@ def gen_trace(rnd, nobjs=10, nops=30):
 TRACE_KW = dict(
     variables=["heap", "nops", "obs"],
     constants=dict(MaxObjs=10, MaxOps=100000, Bug='"none"',
-                   Classes='{"flat", "flat2", "cont", "deep", "nest", "gen", "genraw", "miss", "flag"}'),
+                   Classes='{"flat", "flat2", "cont", "deep", "nest", "gen", "genraw", "miss", "flag", "rng", "anyl"}'),
     config_vars=[], actions=dict(Construct=2, Poke=2, MutateInput=1, Updated=2, Copy=2, Compare=2),
     invariants=["PokeRejected", "EqExact", "EqTruth"])
 
